@@ -3,6 +3,7 @@ package main
 // C07 (anti-MEV phase discipline) and C05 (one decision, quiescence, clean reset) and C08.
 
 import (
+	"os"
 	"fmt"
 	"go/ast"
 	"go/types"
@@ -682,6 +683,48 @@ func ruleCacheAgree(c *RC) *RuleResult {
 				})
 				return true
 			})
+		}
+		// the same through function values (a local closure or a helper handed each bucket): in the walk of the
+		// initialiser with helpers and closures inline, OnReceive is called with the element of a loop over the bucket;
+		// the path to that call may not depend on the view
+		if rec := c.inlineSites(ini, false); rec != nil {
+			seenPol := map[string]map[string]bool{}
+			for _, ss := range rec.FnSites {
+				for _, s := range ss {
+					if s.Kind != "call" || s.Target == nil || s.Target != c.API["OnReceive"] {
+						continue
+					}
+					for _, sn := range s.Snaps {
+						if os.Getenv("DBFTLINT_DEBUG_CACHE") != "" && len(sn.Args) == 1 {
+							fmt.Printf("CACHE-REPLAY %s arg=%s kind=%d trail={%s}\n", s.Fn.Name, sn.Args[0].S, sn.Args[0].K, sn.Trail)
+						}
+						if len(sn.Args) != 1 || sn.Args[0] == nil || sn.Args[0].K != KElem || len(sn.Args[0].Args) != 1 {
+							continue
+						}
+						tb := sn.Args[0].Args[0]
+						if tb.K != KSel {
+							continue
+						}
+						// the path always knows which kind of initialisation it is in (the epoch writer splits on the view):
+						// the bucket must be replayed in both
+						pol := "any"
+						for _, l := range sn.TrailL {
+							if l.A.Op == "eq" && (hasParamTerm(l.A.A) || hasParamTerm(l.A.B)) && (l.A.A.S == "0" || l.A.B.S == "0") {
+								pol = map[bool]string{true: "zero", false: "nonzero"}[l.Pos]
+							}
+						}
+						if seenPol[tb.Name] == nil {
+							seenPol[tb.Name] = map[string]bool{}
+						}
+						seenPol[tb.Name][pol] = true
+					}
+				}
+			}
+			for b, m := range seenPol {
+				if m["any"] || m["zero"] && m["nonzero"] {
+					replayed[b] = true
+				}
+			}
 		}
 		for i := 0; i < inbox.NumFields(); i++ {
 			b := inbox.Field(i).Name()
